@@ -23,6 +23,9 @@ type check struct {
 
 var checks = map[string]*check{}
 
+// extraCommands are hidden sub-commands (child-process bodies) registered by checks.
+var extraCommands = map[string]func(args []string){}
+
 func register(id string, c *check) { checks[id] = c }
 
 func main() {
@@ -37,6 +40,10 @@ func main() {
 		sort.Strings(ids)
 		fmt.Fprintf(os.Stderr, "usage: vcheck <%s> <quick|thorough> | vcheck replay <file>\n", strings.Join(ids, "|"))
 		os.Exit(2)
+	}
+	if f, ok := extraCommands[os.Args[1]]; ok {
+		f(os.Args[2:])
+		os.Exit(0)
 	}
 	if os.Args[1] == "c09-struct" && len(os.Args) == 4 {
 		var n int
